@@ -1,2 +1,3 @@
 -- family stores: C07 C08 C09 C10 C15.  Everything listed here must build: it is part of `lake build`.
 import Thanos.Driver.Stores
+import Thanos.Props.C15
